@@ -201,6 +201,14 @@ def _draw(it, a, k=None):
     if isinstance(term, tuple) and term and term[0] == "sampled_from":
         xs = list(term[1])
         return it.path.choose([(x, True) for x in xs], "sampled")
+    if isinstance(term, tuple) and term and term[0] == "ordered":
+        # lists(sampled_from(items), min_size=len(items), unique_by=...): every permutation of the items
+        import itertools
+
+        perms = [list(p) for p in itertools.permutations(term[1])]
+        return perms[it.path.choose([(i, True) for i in range(len(perms))], "order")]
+    if isinstance(term, tuple) and term and term[0] == "booleans":
+        return it.path.choose([(False, True), (True, True)], "boolean")
     return VObj(it.resolve_class("spec:Features"), {})
 
 
@@ -297,3 +305,45 @@ NATIVE = {"helpers": {"is_plain_string": lambda schema: len(schema) == 1 and sch
 
 
 NATIVE["helpers"]["encodes_something"] = lambda v: False if v is None else (any(x is not None and not (isinstance(x, (list, tuple, dict)) and len(x) == 0) for x in v) if isinstance(v, (list, tuple)) else True)
+
+
+# ------------------------------------------------------------------------------------------------- MutationContext.mutate: no mutation applied => no "negative" schema at all
+R.extern["hypothesis.strategies.booleans"] = lambda it, a, k: ("booleans",)
+R.contract(MU + "ordered", args={"items": Opq("Any")}, abstract_only=True, returns=lambda it, env: ("ordered", list(it.iterate_all(env["items"]))), note="E2: a strategy for the permutations of the items")
+
+
+def _mutation_stub(name):
+    R.contract(MU + name, args={"context": Opq("Any"), "draw": Opq("Any"), "schema": Opq("Any")}, returns=EnumOf(MU + "MutationResult"), trusted=True,
+               effects={"applied": "ghost('applied') + [('" + name + "', result, schema)]"}, note="own contract (negate_constraints above) / E1: reports SUCCESS only if it changed the schema so that it rejects valid data")
+
+
+for _n in ("remove_required_property", "change_properties"):
+    _mutation_stub(_n)
+_nc = R.contracts[MU + "negate_constraints"]
+_nc.returns = EnumOf(MU + "MutationResult")
+_nc.effects = {"applied": "ghost('applied') + [('negate_constraints', result, schema)]"}
+_nc.call_ensures = {}
+_nc.requires_are_representation_invariant = True
+Keywords = DictOf(required={"type": Const("object"), "additionalProperties": Const(False)}, optional={"required": ListOf(Str, [1], widen=False)})
+R.contract(
+    MU + "MutationContext.mutate",
+    prop="C02",
+    args={"self": Obj(MU + "MutationContext", keywords=Keywords, non_keywords=DictOf(required={"x-note": Str}), location=Choice("query", "path"), media_type=NoneT),
+          "draw": Callable_(contract="spec:draw_mutation", name="draw")},
+    ghost={"applied": [], "can_negate": None},
+    raises=["UnsatisfiedAssumption"],
+    ensures={
+        # a schema comes out of the negative pipeline only if at least one mutation REALLY changed it (otherwise the "negative" data would simply be valid data)
+        "returns_only_if_some_mutation_succeeded": "any(r.name == 'SUCCESS' for n, r, sc in ghost('applied'))",
+        "mutations_work_on_a_copy_of_the_schema": "all(sc is not self.keywords for n, r, sc in ghost('applied')) and self.keywords == old(deep(self.keywords))",
+        "path_parameters_only_get_their_values_changed": "implies(self.location == 'path', [n for n, r, sc in ghost('applied')] == ['change_properties'])",
+        "non_keywords_are_carried_over": "all(k in result and result[k] == self.non_keywords[k] for k in self.non_keywords)",
+    },
+    raises_ensures={
+        "rejected_only_if_every_applied_mutation_failed": "raised == 'UnsatisfiedAssumption' and length(ghost('applied')) >= 1 and all(r.name == 'FAILURE' for n, r, sc in ghost('applied'))",
+    },
+    replayable=False,
+    max_paths=20000,
+)
+R.spec_funcs["deep"] = lambda it, v: it.B._deepcopy(v, {})
+
